@@ -963,6 +963,14 @@ MATCHERS = {
                                                and (c['mode'] == 'require_kwargs' or
                                                     all(p['default'] is not None or p['name'] in [k for k, _ in c['kwargs']]
                                                         for p in fn['params'] if p['kind'] in ('pos', 'posonly', 'kwonly') and p['name'] != 0)),
+    # a receiver that the first pass does not count, where positional calls are allowed: it is taken for the first positional value
+    'hidden_method_receiver_taken_as_value': lambda c, fn: c['mkind'] == 'instance' and c['style'] != 'func' and bool(call_parts(c)[0])
+                                                          and fn['first_arg'] != 0 and (c.get('_mflags') or {}).get('shk') == 0,
+    'static_through_instance_receiver_taken_as_value': lambda c, fn: c['mkind'] in ('static', 'class') and bool(call_parts(c)[0])
+                                                                     and fn['first_arg'] != 0 and (c.get('_mflags') or {}).get('shk') == 0,
+    # a parameter called self that is not the receiver
+    'non_receiver_parameter_named_self': lambda c, fn: any(p['name'] == 0 for j, p in enumerate(fn['params'])
+                                                           if not (j == 0 and c.get('recv_name') == 0)),
     'classmethod_decorated_directly': lambda c, fn: c['style'] == 'method_direct' and c['mkind'] == 'class' and c['mode'] == 'pedantic',
     # a receiver the first checking pass does not count (no first parameter called self) in front of *args
     'receiver_checked_against_varargs': lambda c, fn: bool(call_parts(c)[0]) and fn['first_arg'] != 0
